@@ -16,7 +16,7 @@ class ScriptedLimiter:
         k = self.calls
         self.calls += 1
         ans = self.script.get(k, self.default)
-        self.log.append((k, getattr(func, '__name__', '?'), ans if isinstance(ans, str) else ans.__name__))
+        self.log.append((k, getattr(func, '__name__', '?'), ans if isinstance(ans, str) else getattr(ans, '__name__', 'exc')))
         if ans == 'run':
             return func(*args, **kwargs)
         raise ans()
